@@ -740,6 +740,9 @@ def _kinds():
         "logger": (lambda: logging.getLogger("c08"), False),
         "module": (lambda: torch.nn.Linear(1, 1), False),
         "ndarray": (lambda: np.arange(6.0).reshape(2, 3), False),
+        "ndarray-empty": (lambda: np.zeros((0, 2)), False),
+        "ndarray-object": (lambda: np.array([1, "x"], dtype=object), True),   # zarr has no data type for dtype=object
+        "ndarray-huge-int": (lambda: np.asarray([2 ** 70, 1]), True),          # integers beyond 64 bit -> dtype=object
         "int": (lambda: 3, False),
         "float": (lambda: 2.5, False),
         "str": (lambda: "text", False),
@@ -758,6 +761,20 @@ def _kinds():
         "fallback-generator": (_gen, True),
         "fallback-unreducible": (_Unreducible, True),
     }
+
+
+SV_INLINE = (f"{SER}:AutoSerialize._write_ndarray", f"{SER}:AutoSerialize._write_bytes")
+
+
+class InliningContract(Contract):
+    """While THIS function's body is verified the listed callees are interpreted (inlined) instead of being used through
+    their contracts: a callee that starts reporting failure by a return value is then seen by a caller that ignores it.
+    (The callees keep their own contracts, verified separately and used at every other call site.)"""
+
+    def verify(self, reg, mutate_goal=None):
+        for q in self.inline:
+            reg.contracts.pop(q, None)
+        return super().verify(reg, mutate_goal)
 
 
 def pick_case(ctx, names, what):
@@ -787,7 +804,15 @@ def sv_raises(s):
     if s.mode == "apply":
         return False
     # raises exactly when a write failed, a callee refused a nested value, or the value itself cannot be serialised
-    return z3.BoolVal(faulted(s) or refused(s) or bool(s.unserialisable))
+    if faulted(s) or refused(s):
+        return z3.BoolVal(True)
+    if s.unserialisable:
+        if s.case.startswith("ndarray"):
+            # the ndarray branch writes only `if name not in group` (an existing child of that name is left alone)
+            n = M.sterm(s.name)
+            return NOT(OR(z3.Select(s.old.R, n), z3.Select(s.old.G, n)))
+        return z3.BoolVal(True)
+    return z3.BoolVal(False)
 
 
 def sv_ensures(s):
@@ -831,8 +856,8 @@ def sv_modifies(ctx, s):
     ctx.assume(z3.Select(g.done, n))
 
 
-C_SVALUE = Contract(
-    f"{SER}:AutoSerialize._serialize_value", setup=sv_setup, snapshot=lambda s: group_snapshot(s.group), modifies=sv_modifies,
+C_SVALUE = InliningContract(
+    f"{SER}:AutoSerialize._serialize_value", inline=SV_INLINE, setup=sv_setup, snapshot=lambda s: group_snapshot(s.group), modifies=sv_modifies,
     ensures=sv_ensures, on_raise=sv_on_raise, raises={Exception: sv_raises},
     note="returns normally only if the value was completely written (ghost done[name] at call sites); raises if the value cannot be "
          "serialised or any write fails, possibly leaving a partial entry",
@@ -854,6 +879,7 @@ def _containers():
         "dict": lambda: {"k": 1, 2: "two"},
         "empty-dict": lambda: {},
         "module-list": lambda: torch.nn.ModuleList([torch.nn.Linear(1, 1)]),
+        "huge-int-list": lambda: [2 ** 70, 1],   # numeric fast path, but numpy falls back to dtype=object
     }
 
 
@@ -880,7 +906,11 @@ def sc_ensures(s):
     tag = f"[{s.case}]"
     out = [("container-type-recorded" + tag, z3.Select(g.A, SV("_container_type"))),
            ("nothing-removed-from-the-group" + tag, group_grew(s.old, g))]
-    if s.case == "numeric-list":
+    if s.case == "huge-int-list":
+        # either one array or item by item - but nothing may be missing
+        out.append(("values-stored-as-array-or-item-by-item" + tag,
+                    OR(AND(z3.Select(g.R, SV("values")), z3.Select(g.W, SV("values"))), AND(*[z3.Select(g.done, SV(k)) for k in sc_keys(s.value)]))))
+    elif s.case == "numeric-list":
         out.append(("values-array-written" + tag, AND(z3.Select(g.R, SV("values")), z3.Select(g.W, SV("values")))))
     else:
         for k in sc_keys(s.value):
@@ -912,7 +942,23 @@ def _arrays():
     import numpy as np
 
     return {"2d": lambda: np.arange(6.0).reshape(2, 3), "0d": lambda: np.array(3.5), "empty": lambda: np.zeros((0, 2)),
-            "list-input": lambda: [1, 2, 3], "1d-int": lambda: np.arange(3)}
+            "list-input": lambda: [1, 2, 3], "1d-int": lambda: np.arange(3),
+            "object-dtype": lambda: np.array([1, "x"], dtype=object), "huge-int": lambda: np.asarray([2 ** 70, 1])}
+
+
+UNSTORABLE_ARRAYS = ("object-dtype", "huge-int")
+
+
+def unstorable(payload):
+    """zarr has no data type for dtype=object (mixed python objects, integers beyond 64 bit): the array cannot be stored."""
+    import numpy as np
+
+    if payload is None:
+        return False
+    try:
+        return (not V.contains_sym(payload)) and not isinstance(payload, (bytes, bytearray)) and np.asarray(payload).dtype.kind == "O"
+    except Exception:  # noqa: BLE001
+        return False
 
 
 def wn_setup(ctx):
@@ -930,7 +976,8 @@ def wn_ensures(s):
     g = s.group
     n = M.sterm(s.name)
     tag = f"[{s.case}]"
-    out = [("array-created" + tag, z3.Select(g.R, n)), ("nothing-removed-from-the-group" + tag, group_grew(s.old, g))]
+    # from the property: returning normally MEANS the array is stored (a failure must propagate, not be reported by a flag)
+    out = [("returned-normally=>array-created" + tag, z3.Select(g.R, n)), ("nothing-removed-from-the-group" + tag, group_grew(s.old, g))]
     if s.case != "empty":
         out.append(("array-data-written" + tag, z3.Select(g.W, n)))
     return out
@@ -943,6 +990,10 @@ def array_write_modifies(site):
         if not isinstance(g, M.GhostGroup):
             raise V.OutOfSubset(f"{site} on a non-ghost group")
         n = M.sterm(s.name)
+        if unstorable(s.get("array", None)):
+            # the callee's contract: an array that cannot be stored makes it RAISE (nothing is created)
+            w.refusals.append(site)
+            raise RaiseSig(ValueError("array cannot be stored (dtype=object)"))
         if not w.faults and ctx.branch(ctx.fresh(f"fault@{site}", "bool").t):
             g.havoc_grow("partial")
             M.raise_fault(ctx, site, "array write failed")
@@ -965,7 +1016,7 @@ C_WNDARRAY = Contract(
     f"{SER}:AutoSerialize._write_ndarray", setup=wn_setup, snapshot=lambda s: group_snapshot(s.group),
     modifies=array_write_modifies("_write_ndarray"), ensures=wn_ensures,
     on_raise=lambda s, E: [(f"nothing-removed-from-the-group[{s.case}]", group_grew(s.old, s.group))],
-    raises={Exception: lambda s: False if s.mode == "apply" else z3.BoolVal(faulted(s))},
+    raises={Exception: lambda s: False if s.mode == "apply" else z3.BoolVal(faulted(s) or s.case in UNSTORABLE_ARRAYS)},
 )
 
 
@@ -991,6 +1042,19 @@ C_WBYTES = Contract(
 
 class InjectedFailure(OSError):
     pass
+
+
+class InjectedValueError(ValueError):
+    pass
+
+
+class InjectedTypeError(TypeError):
+    pass
+
+
+INJECTED = {"OSError": InjectedFailure, "ValueError": InjectedValueError, "TypeError": InjectedTypeError}
+# object graphs holding a value that cannot be stored (dill / zarr reject it): save must raise or store everything
+UNSTORABLE_OBJECTS = ("unpicklable", "objarr-top", "objarr-child", "objarr-dict", "objarr-list", "hugeint-list", "hugeint-array")
 
 
 def _digest(path):
@@ -1021,6 +1085,19 @@ def _probe_object(kind):
 
     if kind == "unpicklable":
         return _Probe(a=1, bad=(i for i in range(3)), z="after")
+    objarr = np.array([1, "x"], dtype=object)
+    if kind == "objarr-top":
+        return _Probe(a=1, bad=objarr, z="after")
+    if kind == "objarr-child":
+        return _Probe(a=1, child=_Probe(p=2, bad=objarr, q="q"), z="after")
+    if kind == "objarr-dict":
+        return _Probe(a=1, cfg={"k": 1, "bad": objarr, "m": "x"}, z="after")
+    if kind == "objarr-list":
+        return _Probe(a=1, items=["s", objarr, 3], z="after")
+    if kind == "hugeint-list":
+        return _Probe(a=1, big=[2 ** 70, 1], z="after")
+    if kind == "hugeint-array":
+        return _Probe(a=1, big=np.asarray([2 ** 70, 1]), z="after")
     if kind == "rich":
         import torch
 
@@ -1048,6 +1125,12 @@ def _value_mismatches(obj, loaded):
             ok = v == w
         elif isinstance(v, list) and all(x is None or isinstance(x, (bool, int, float, str)) for x in v):
             ok = isinstance(w, list) and v == w
+        elif isinstance(v, list):
+            ok = isinstance(w, list) and len(v) == len(w)
+        elif isinstance(v, dict):
+            ok = isinstance(w, dict) and {str(x) for x in v} == set(w)
+        elif isinstance(v, AS):
+            ok = isinstance(w, AS) and set(vars(v)) == _attr_names(w)
         else:
             continue
         if not ok:
@@ -1076,8 +1159,9 @@ class _Injector:
 
     SITES = ("serialize", "write", "zipwrite", "zipopen", "makedirs", "rmtree", "remove", "tmpdir", "group", "skipmeta")
 
-    def __init__(self, site=None, k=0):
+    def __init__(self, site=None, k=0, exc="OSError"):
         self.site, self.k = site, k
+        self.exc = INJECTED[exc]
         self.count = {s: 0 for s in self.SITES}
         self.fired = False
         self.stack = contextlib.ExitStack()
@@ -1087,7 +1171,7 @@ class _Injector:
         self.count[site] = n + 1
         if site == self.site and n == self.k and not self.fired:
             self.fired = True
-            raise InjectedFailure(f"injected failure at {site} #{n}")
+            raise self.exc(f"injected failure at {site} #{n}")
 
     def wrap(self, site, f, when=None):
         inj = self
@@ -1198,7 +1282,7 @@ def rt_save(inp):
         pre_digest = _digest(target)
         sib = {x: _digest(os.path.join(work, x)) for x in os.listdir(work) if os.path.join(work, x) != target}
         obj = _probe_object(objkind)
-        inj = _Injector(*(fault or (None, 0)))
+        inj = _Injector(*(fault or (None, 0)), exc=inp.get("exc", "OSError"))
         exc = None
         with contextlib.redirect_stdout(io.StringIO()):
             with inj:
@@ -1248,19 +1332,18 @@ def rt_save(inp):
         else:
             if inj.fired:
                 problems.append(("swallowed", f"failure injected at {fault} but save returned normally"))
-            if objkind == "unpicklable":
-                problems.append(("swallowed", "an attribute that cannot be serialised was skipped silently"))
             if loaded is None:
                 problems.append(("success-not-loadable", f"save returned normally but the target does not load: {lerr!r}"))
             elif _attr_names(loaded) != want:
-                problems.append(("success-incomplete", f"save returned normally but the target loads with attributes {sorted(_attr_names(loaded))}"))
+                problems.append(("swallowed" if objkind in UNSTORABLE_OBJECTS else "success-incomplete",
+                                 f"save returned normally but the target loads with attributes {sorted(_attr_names(loaded))} (saved object has {sorted(want)})"))
             elif _value_mismatches(obj, loaded):
-                problems.append(("success-incomplete", f"save returned normally but attributes {_value_mismatches(obj, loaded)} reload with different "
+                problems.append(("swallowed" if objkind in UNSTORABLE_OBJECTS else "success-incomplete", f"save returned normally but attributes {_value_mismatches(obj, loaded)} reload with different "
                                                        f"contents (e.g. {getattr(loaded, _value_mismatches(obj, loaded)[0])!r})"))
             elif not {SKIPN, SKIPT} <= _root_attr_keys(target):
                 problems.append(("success-without-skip-metadata", "save returned normally but the target's root attributes lack the skip lists"))
         # ---- expected refusals
-        if exc is not None and not inj.fired and objkind != "unpicklable":
+        if exc is not None and not inj.fired and objkind not in UNSTORABLE_OBJECTS:
             exp_val = comp_bad or (not (existed and mode != "o") and (store not in ("auto", "zip", "dir") or (eff == "dir" and os.path.splitext(target)[1] != "")))
             exp_fee = (not comp_bad) and existed and mode != "o"
             if not (exp_val and isinstance(exc, ValueError)) and not (exp_fee and isinstance(exc, FileExistsError)):
@@ -1336,7 +1419,18 @@ def fam_save(tier="quick", seed=0):
             yield dict(store=store, mode=mode, suffix=suffix, pre=pre, fault=None)
     for store, suffix in (("zip", ".zip"), ("dir", "")):
         for mode, pre in (("w", "absent"), ("o", "saved")):
-            yield dict(store=store, mode=mode, suffix=suffix, pre=pre, fault=None, obj="unpicklable")
+            for ok_ in UNSTORABLE_OBJECTS:
+                yield dict(store=store, mode=mode, suffix=suffix, pre=pre, fault=None, obj=ok_)
+        # the same faults raised as ValueError / TypeError (what a handler in the serializer might name)
+        eff = "zip" if store == "zip" else "dir"
+        cnt = _site_counts(eff, "basic")
+        for exc in ("ValueError", "TypeError"):
+            for site in ("write", "serialize", "zipwrite", "skipmeta", "group"):
+                ks = range(cnt.get(site, 0))
+                if not thorough and len(ks) > 5 and exc == "TypeError":
+                    ks = sorted({0, 1, len(ks) // 2, len(ks) - 1})
+                for k in ks:
+                    yield dict(store=store, mode="o", suffix=suffix, pre="saved", fault=[site, k], obj="basic", exc=exc)
         yield dict(store=store, mode="w", suffix=suffix, pre="saved", compression_level=11)
         yield dict(store=store, mode="o", suffix=suffix, pre="saved", compression_level=11)
 
@@ -1410,7 +1504,7 @@ def _known_defect_input(inp):
     eff, _ = spec_target("t" + inp.get("suffix", ""), inp.get("store", "auto"))
     f = inp.get("fault")
     if eff == "dir":
-        return inp.get("obj") == "unpicklable" or bool(f and f[0] in ("serialize", "write", "skipmeta"))
+        return inp.get("obj") in UNSTORABLE_OBJECTS or bool(f and f[0] in ("serialize", "write", "skipmeta"))
     if eff == "zip":
         return bool(f and f[0] == "zipwrite")
     return False
